@@ -16,13 +16,24 @@ PID = 'C16'
 JOB = 'checks.jobs:history_world'
 JOB_GEN = 'checks.jobs:gen_world'
 STAGES = ['test_all', 'fisher', 'match', 'combine']
-OBS_CONFIGS = [('core_maths', 3), ('core_maths', 4), ('osc_maths', 3), ('base_e_maths', 3), ('core_maths', 2), ('ext_maths', 2), ('core_maths', 5), ('core_maths', 1)]
+OBS_CONFIGS = [('core_maths', 3), ('core_maths', 4), ('osc_maths', 3), ('base_e_maths', 3), ('core_maths', 2), ('ext_maths', 2), ('core_maths', 5), ('core_maths', 1),
+               ('verif_plain', 3), ('verif_plain2', 3), ('verif_plain2', 4)]
 OTHER = [('ext_maths', 3), ('osc_maths', 2), ('base10_maths', 3), ('keep_duplicates', 2), ('core_maths', 5), ('base_e_maths', 2), ('ext_maths', 1),
          ('osc_maths', 4), ('base_e_maths', 3), ('keep_duplicates', 3), ('base_e_maths', 4)]
 FIT_OPTS = dict(Niter_params=[2], Nconv_params=[1])
 # a basis without binary operators has two functions per complexity, so complexity 10 is generated in seconds: the only
 # affordable way to have a compl_10 directory next to compl_2..compl_9 in one library
-RUN_BASIS = {'verif_tiny': [["x", "a"], ["inv"], []]}
+RUN_BASIS = {'verif_tiny': [["x", "a"], ["inv"], []],
+             # operator names that are NOT in ESR's own symbol table ("sqrt", "log": legal basis entries, tests/test_esr.py uses
+             # "sqrt"): generation parses them with sympy's functions, the fitting stages with ESR's |.|-protected ones - so a
+             # symbol table leaking from one stage into the other changes what a later generation writes
+             'verif_plain': [["x", "a"], ["sqrt", "log", "inv"], ["+", "*"]],
+             'verif_plain2': [["x", "a"], ["sqrt", "exp"], ["*", "pow"]]}
+# explicit argument sets of test_all.main other than the harness default (documented arguments; the defaults are mutable lists)
+ARG_SETS = [dict(Niter_params=[2, 2]), dict(Niter_params=[3, 2], Nconv_params=[1, 1], pmin=0.5, pmax=2), dict(Niter_params=[2], Nconv_params=[1], tmax=3, log_opt=True),
+            dict(Niter_params=[1, 1]), {}]
+API_CALLS = ['string_to_node', 'string_to_node_default', 'aifeyn', 'single_function', 'fit_from_string', 'run_sympify']
+GEN_OPTS = [dict(track_memory=True), dict(search_tmax=7, expand_tmax=2), dict(track_memory=True, seed=99), dict(seed=7)]
 
 
 def basis_of(rn):
@@ -90,6 +101,32 @@ for _st in STAGES:
 DIRECTED.append(dict(cfg=('core_maths', 4), kind='gen', P_obs=1, P_first=1, ops=['pipe_synth']))
 DIRECTED.append(dict(cfg=('core_maths', 3), kind='fit', stage='test_all', P_obs=1, P_first=1, ipe=True, ops=['pipe_other_basis']))
 DIRECTED.append(dict(cfg=('core_maths', 4), kind='fit', stage='test_all', P_obs=1, P_first=1, ipe=True, ops=['pipe_other_basis', 'pipe_other_like']))
+
+# --- round 8: other public entry points, other argument sets, operator names outside ESR's symbol table ---
+for _cfg in (('verif_plain', 3), ('verif_plain2', 3), ('core_maths', 3)):
+    DIRECTED.append(dict(cfg=_cfg, kind='gen', P_obs=1, P_first=1, ops=['pipe_same']))
+    DIRECTED.append(dict(cfg=_cfg, kind='gen', P_obs=1, P_first=1, ops=['gen_same_basis', 'api:run_sympify']))
+    DIRECTED.append(dict(cfg=_cfg, kind='gen', P_obs=2, P_first=2, ops=['api:fit_from_string', 'api:string_to_node']))
+for _cfg in (('core_maths', 3), ('core_maths', 4), ('verif_plain', 3)):
+    for _w in API_CALLS:
+        DIRECTED.append(dict(cfg=_cfg, kind='gen', P_obs=1, P_first=1, ops=['api:' + _w]))
+for _st in STAGES:
+    DIRECTED.append(dict(cfg=('core_maths', 3), kind='fit', stage=_st, P_obs=1, P_first=1, ipe=False, ops=['api:string_to_node', 'api:single_function', 'api:aifeyn']))
+    DIRECTED.append(dict(cfg=('verif_plain', 3), kind='fit', stage=_st, P_obs=1, P_first=1, ipe=False, ops=['api:fit_from_string', 'gen_other']))
+for _k in range(len(ARG_SETS)):
+    # the observed test_all call with the DEFAULT arguments after earlier calls with explicit ones (small library: the default
+    # iteration counts are large)
+    DIRECTED.append(dict(cfg=('core_maths', 2), kind='fit', stage='test_all', P_obs=1, P_first=1, ipe=False, obs_defaults=True, ops=['pipe_args:%d' % _k]))
+    DIRECTED.append(dict(cfg=('core_maths', 3), kind='fit', stage='test_all', P_obs=1, P_first=1, ipe=False, ops=['pipe_args:%d' % _k, 'pipe_args:%d' % ((_k + 1) % len(ARG_SETS))]))
+DIRECTED.append(dict(cfg=('verif_tiny', 3), kind='fit', stage='test_all', P_obs=2, P_first=2, ipe=False, obs_defaults=True, ops=['pipe_args:0', 'pipe_args:3']))
+for _cfg in (('osc_maths', 3), ('core_maths', 3)):
+    # ... on libraries with multi-modal likelihood surfaces (sin(a0*x), pow(x,a0)): there the number of restarts and the
+    # convergence count decide which optimum is reported
+    DIRECTED.append(dict(cfg=_cfg, kind='fit', stage='test_all', P_obs=1, P_first=1, ipe=False, mock=False, obs_defaults=True, ops=['pipe_args:0']))
+    DIRECTED.append(dict(cfg=_cfg, kind='fit', stage='test_all', P_obs=2, P_first=2, ipe=False, mock=False, obs_defaults=True, ops=['pipe_args:3', 'pipe_args:1']))
+for _k in range(len(GEN_OPTS)):
+    DIRECTED.append(dict(cfg=('core_maths', 3), kind='gen', P_obs=1, P_first=1, ops=['gen_opts:%d' % _k]))
+    DIRECTED.append(dict(cfg=('core_maths', 4), kind='gen', P_obs=2, P_first=2, ops=['gen_opts:%d' % _k, 'gen_same_basis']))
 
 
 def sigs_of(args, r):
@@ -192,6 +229,40 @@ def draw_history(seed, i, quick, recipe=None):
              'pipe_synth': 0.88, 'gen_high': 0.883, 'restart': 0.9, 'gen_faulty': 0.95, 'gen_faulty_inproc': 0.985}
     plan_ops = recipe.get('ops')
     for oi in range(len(plan_ops) if plan_ops is not None else nops):
+        extra = None
+        if plan_ops is not None:
+            if plan_ops[oi].split(':')[0] in ('api', 'pipe_args', 'gen_opts'):
+                extra = plan_ops[oi]
+        elif rng.random() < 0.15:
+            extra = rng.choice(['api', 'api', 'pipe_args', 'gen_opts'])
+        if extra:
+            ek, _, earg = extra.partition(':')
+            if ek == 'api':
+                # another public entry point of ESR called earlier in the same process
+                what = earg or rng.choice(API_CALLS)
+                kw_ = dict(what=what)
+                if what in ('single_function', 'fit_from_string', 'run_sympify'):
+                    need_like('Lobs', like_obs)
+                    kw_['like'] = 'Lobs'
+                cur().append(['api', kw_])
+                desc.append('api ' + what)
+            elif ek == 'pipe_args':
+                o = dict(ARG_SETS[int(earg)] if earg else rng.choice(ARG_SETS))
+                if not o and configs.nfun(basis_of(runname), n) > 30:
+                    o = dict(ARG_SETS[0])        # all-default arguments only on small libraries
+                need_lib(runname, n)
+                need_like('Lobs', like_obs)
+                cur().extend(pipeline('Lobs', n, opts=o, upto='fisher') if rng.random() < 0.5 else pipeline('Lobs', n, opts=o))
+                desc.append('pipeline same likelihood, arguments %s' % (sorted(o) or 'default'))
+            else:
+                go = dict(GEN_OPTS[int(earg)] if earg else rng.choice(GEN_OPTS))
+                cc = rng.choice([x for x in (2, 3, 4) if configs.nfun(basis_of(runname), x) <= 300])
+                cur().append(gen_op(runname, cc, **go))
+                libs.discard((runname, cc))        # generated with another seed: not the library a later stage should silently reuse
+                if 'seed' not in go:
+                    libs.add((runname, cc))
+                desc.append('gen %s/%d with options %s' % (runname, cc, sorted(go)))
+            continue
         c = rng.random()
         forced_P = None
         if plan_ops is not None:
@@ -298,6 +369,8 @@ def draw_history(seed, i, quick, recipe=None):
         stage = recipe.get('stage') or rng.choice(STAGES)
         o_pre = op_opts()
         okw = op_opts() if stage == 'test_all' else {}
+        if stage == 'test_all' and recipe.get('obs_defaults', (runname, n) in (('core_maths', 1), ('core_maths', 2), ('core_maths', 3), ('osc_maths', 3)) and rng.random() < 0.3):
+            okw = {k_: v_ for k_, v_ in okw.items() if k_ == 'ignore_previous_eqns'}     # Niter_params / Nconv_params left at their defaults
         need_lib(runname, n, lower=bool(o_pre.get('ignore_previous_eqns') or okw.get('ignore_previous_eqns')))
         need_like('Lobs', like_obs)
         cur().extend(pipeline('Lobs', n, upto=stage, opts=o_pre))
@@ -332,14 +405,14 @@ def main(tier, seed, budget):
     T = base.Timer()
     rep = base.Reporter(PID)
     quick = tier == 'quick'
-    explore_s = budget or (150 if quick else 1500)
+    explore_s = budget or (190 if quick else 1500)
     stats = dict(histories=0, by_kind={}, by_len={}, ops={}, restarts=0, events=0, nontrivial=set(), fresh_worlds=0, ipe=0)
     samples = []
     selftest = {}
     with Pool(16, hashseed=0, warm=False) as pool:
         # ---- fresh reference worlds for observed generations ----
         refs = {}
-        jobs = [dict(fn=JOB_GEN, args=dict(runname=rn, compl=c, P=P, seed=0, policy={'kind': 'lowest'}, oracle=False,
+        jobs = [dict(fn=JOB_GEN, args=dict(runname=rn, compl=c, basis=RUN_BASIS.get(rn), P=P, seed=0, policy={'kind': 'lowest'}, oracle=False,
                                            pre=[['npseed', dict(seed=1)]], gen_kw=({'seed': gs} if gs is not None else {})), tag=(rn, c, P, gs))
                 for rn, c in OBS_CONFIGS for P in (1, 2) for gs in (None, 0)]
         for job, out in pool.imap(jobs, timeout=900):
